@@ -27,13 +27,13 @@ func (c19) Info(tier string) fw.Info {
 	return fw.Info{
 		Level: "translation_validation",
 		Rule: "programs = shipped examples/*.hms and tests/*.hms (every imported module printed too) + seeded well-typed generator programs (hv/prog) + a hand-written printer-coverage set (every expression/statement/type/item form, all string escapes, non-identifier object keys, float shapes, match defaults, pub items, singletons/impl/templates/triggers/annotations) + optimizer programs with code after diverging statements; " +
-			"each accepted program P is translated by one of: parser-AST printer (Program.String), analysed-tree printer (AnalyzedProgram.String), optimizer.Optimize. The translation must be accepted, run on the VM with the same effects and outcome (class, kind, message) as P, and for the printers print(parse(print(P))) must equal print(P). " +
+			"each accepted program P is translated by one of: parser-AST printer (Program.String), analysed-tree printer (AnalyzedProgram.String), optimizer.Optimize (executed on the VM, and for optimizer/generated programs also by the tree-walking interpreter). The translation must be accepted, run with the same effects and outcome (class, kind, message) as P, and for the printers print(parse(print(P))) must equal print(P). " +
 			"non-trivial = P accepted, deterministic in two runs, and producing output or a non-ok outcome; distinct = distinct (source text, translation)",
 		Assumptions: []string{
 			"behaviour = effect log of the harness host (text written, trigger registrations, singleton loads) + outcome class/kind/message of the VM; spans are layout and are not compared",
 			"programs whose two plain runs differ (time, threads) are skipped as unstable",
 			"the structural tree comparison only labels failure signatures; it never decides a verdict",
-			"constructs poisoned by open known findings stay in the workload, tagged, so that only the matching finding can absorb their failures",
+			"while a finding that makes a generator feature unusable (floats, strings, match) is open, the main generated workload leaves the feature out and a small tagged workload keeps exercising it; corpus and hand-written programs always run, tagged by construct, so that only the matching finding can absorb their failures",
 		},
 		CaseTimeoutS: 60,
 		BatchSize:    60,
@@ -151,11 +151,12 @@ func (c19) Cases(tier string, seed uint64) []fw.Case {
 		n = 13000
 	}
 	r := fw.NewRng(seed ^ 0xC19)
+	preset := mainPreset()
 	pls := make([]c01.Payload, n)
 	gsrcs := make([]map[string]string, n)
 	haz := make([][]string, n)
 	for i := 0; i < n; i++ {
-		pls[i] = c01.Payload{Seed: r.Next(), Size: 4 + r.Intn(14), Preset: "main"}
+		pls[i] = c01.Payload{Seed: r.Next(), Size: 4 + r.Intn(14), Preset: preset}
 	}
 	var wg sync.WaitGroup
 	nw := runtime.NumCPU()
@@ -163,7 +164,7 @@ func (c19) Cases(tier string, seed uint64) []fw.Case {
 	// workload is generated without that feature and a small workload with all features on keeps
 	// exercising it (its failures can only be absorbed through tag + signature)
 	np := 0
-	if poisoned("Floats") || poisoned("Strings") || poisoned("MatchExpr") {
+	if preset != "all" {
 		np = 40
 		if tier == "thorough" {
 			np = 600
@@ -198,8 +199,8 @@ func (c19) Cases(tier string, seed uint64) []fw.Case {
 	return cases
 }
 
-// BuildGen regenerates the program of a generated case. Preset "main" leaves out the generator
-// features poisoned by open C19 findings, "all" uses everything C01's main workload uses.
+// BuildGen regenerates the program of a generated case. Preset "all" uses everything C01's main
+// workload uses, "all-Floats-…" leaves out the named features (poisoned by open C19 findings).
 func BuildGen(p c01.Payload) (*prog.Program, map[string]bool) {
 	g := &prog.Gen{R: fw.NewRng(p.Seed), F: genFeatures(p.Preset, c01.Features("main"))}
 	pr := g.Program(p.Size)
